@@ -480,3 +480,438 @@ Proof.
 Qed.
 
 End Lift.
+
+(* ---------- database consistency of one engine ---------- *)
+
+Lemma DbIn_emit s e : DbIn s -> DbIn (emit s e).
+Proof. intros H. exact H. Qed.
+
+Lemma done_set_mem_other s k r x : x <> k -> (done (set_mem s k r) x <-> done s x).
+Proof. intros H. unfold done. cbn [set_mem st_mem st_epoch]. rewrite get_update_other by exact H. tauto. Qed.
+
+Lemma done_set_mem_same s k r : done (set_mem s k r) k <-> res_builtAt r = st_epoch s.
+Proof. unfold done. cbn [set_mem st_mem st_epoch]. rewrite get_update_same. tauto. Qed.
+
+(* a memory-only update of k (scanRule's cleaning, or marking k complete after a scan) *)
+Lemma DbIn_set_mem s k r :
+  DbIn s -> rel r (get (st_db s) k) -> res_builtAt r <= st_epoch s ->
+  res_computedAt r = cA (st_mem s) k ->
+  (forall d, In d (drop_single (res_deps r)) -> d_order d = false ->
+     ~ (bA (st_db s) k < cA (st_mem s) (d_key d) /\ cA (st_mem s) (d_key d) <= res_builtAt r)) ->
+  (res_builtAt r = st_epoch s -> bA (st_db s) k <> st_epoch s ->
+     forall d, In d (drop_single (res_deps r)) -> done (set_mem s k r) (d_key d)) ->
+  (done s k -> res_builtAt r = st_epoch s) ->
+  DbIn (set_mem s k r).
+Proof.
+  intros [Hf [[Hrel Hgap] [Hbd Hsc]]] Hr Hb Hc Hown Hscan Hmono.
+  assert (HcA : forall x, cA (update (st_mem s) k r) x = cA (st_mem s) x).
+  { intros x. destruct (N.eq_dec x k) as [->|Hx]; [rewrite cA_update_same; exact Hc | apply cA_update_other; exact Hx]. }
+  assert (Hdm : forall x, done s x -> done (set_mem s k r) x).
+  { intros x Hd. destruct (N.eq_dec x k) as [->|Hx]; [apply done_set_mem_same, Hmono, Hd | apply done_set_mem_other; assumption]. }
+  unfold DbIn. cbn [set_mem st_flag st_mem st_db st_epoch].
+  split; [exact Hf|]. split; [split|]; [| |split].
+  - intros x. destruct (N.eq_dec x k) as [->|Hx]; [rewrite get_update_same; exact Hr|].
+    rewrite get_update_other by exact Hx. apply Hrel.
+  - intros x d Hin Hord. rewrite HcA. destruct (N.eq_dec x k) as [->|Hx].
+    + rewrite get_update_same in Hin. rewrite bA_update_same. apply Hown; assumption.
+    + rewrite get_update_other in Hin by exact Hx. rewrite bA_update_other by exact Hx. apply Hgap; assumption.
+  - intros x. destruct (N.eq_dec x k) as [->|Hx]; [rewrite bA_update_same; exact Hb|].
+    rewrite bA_update_other by exact Hx. apply Hbd.
+  - intros x d Hd Hdb Hin. cbn [set_mem st_db st_epoch] in Hdb. destruct (N.eq_dec x k) as [->|Hx].
+    + apply done_set_mem_same in Hd. cbn [set_mem st_mem] in Hin. rewrite get_update_same in Hin.
+      apply Hscan; assumption.
+    + apply (done_set_mem_other s k r x Hx) in Hd. cbn [set_mem st_mem] in Hin.
+      rewrite get_update_other in Hin by exact Hx. apply Hdm. apply (Hsc x d Hd Hdb Hin).
+Qed.
+
+(* taskIsComplete: the same result goes to memory and to the database; computedAt of k may become the epoch *)
+Lemma DbIn_complete order s k rl r bk v :
+  DbIn s -> ~ done s k -> res_computedAt r = cA (st_mem s) k ->
+  DbIn (complete order s k rl r bk v).
+Proof.
+  intros [Hf [[Hrel Hgap] [Hbd Hsc]]] Hnd Hc. unfold complete.
+  set (r' := mkRes (Some v) (r_sig rl) _ (st_epoch (emit s (EComplete k v))) _).
+  assert (Hb' : res_builtAt r' = st_epoch s) by reflexivity.
+  assert (Hc' : res_computedAt r' = cA (st_mem s) k \/ res_computedAt r' = st_epoch s).
+  { subst r'. cbn [res_computedAt emit st_epoch].
+    destruct (match res_value r with Some old => negb (value_eqb old v) | None => true end);
+      [right; reflexivity | left; exact Hc]. }
+  clearbody r'.
+  unfold DbIn, scanned_deps_done. cbn [set_db set_mem unflag emit st_flag st_mem st_db st_epoch].
+  rewrite Hf. cbn [filter]. split; [reflexivity|]. split; [split|]; [| |split].
+  - intros x. destruct (N.eq_dec x k) as [->|Hx]; [rewrite !get_update_same; apply rel_refl|].
+    rewrite !get_update_other by exact Hx. apply Hrel.
+  - intros x d Hin Hord [G1 G2]. destruct (N.eq_dec x k) as [->|Hx].
+    + rewrite !bA_update_same in *. lia.
+    + rewrite get_update_other in Hin by exact Hx. rewrite !bA_update_other in * by exact Hx.
+      destruct (N.eq_dec (d_key d) k) as [Ek|Ek].
+      * rewrite Ek in G1, G2. rewrite cA_update_same in G1, G2.
+        destruct Hc' as [Hc'|Hc']; rewrite Hc' in G1, G2.
+        -- apply (Hgap x d Hin Hord). rewrite Ek. lia.
+        -- pose proof (Hbd x) as Hbx. assert (Hdx : done s x) by (unfold done; fold (bA (st_mem s) x); lia).
+           apply Hnd. rewrite <- Ek. apply (Hsc x d Hdx); [lia | exact Hin].
+      * rewrite cA_update_other in G1, G2 by exact Ek. apply (Hgap x d Hin Hord). lia.
+  - intros x. destruct (N.eq_dec x k) as [->|Hx]; [rewrite bA_update_same; lia|].
+    rewrite bA_update_other by exact Hx. apply Hbd.
+  - intros x d Hd Hdb Hin. destruct (N.eq_dec x k) as [->|Hx].
+    + exfalso. apply Hdb. rewrite bA_update_same. exact Hb'.
+    + unfold done in Hd. cbn [set_db set_mem unflag emit st_mem st_epoch] in Hd. rewrite get_update_other in Hd by exact Hx.
+      rewrite bA_update_other in Hdb by exact Hx. rewrite get_update_other in Hin by exact Hx.
+      pose proof (Hsc x d Hd Hdb Hin) as Hdd. unfold done in *. cbn [set_db set_mem unflag emit st_mem st_epoch].
+      destruct (N.eq_dec (d_key d) k) as [Ek|Ek]; [rewrite Ek, get_update_same; exact Hb'|].
+      rewrite get_update_other by exact Ek. exact Hdd.
+Qed.
+
+Section Inv.
+Variable rules : key -> rule.
+Variable env : key -> N.
+Variable F : key -> N -> list value -> list N -> N -> N.
+Variable order : N -> key -> list dep -> list dep.
+Variable ens : list key -> state -> key -> outcome.
+Hypothesis Hinv : forall stack s k, DbIn s -> oinv DbIn (ens stack s k).
+Hypothesis Hfr : forall stack s k, frame stack s k (ens stack s k).
+
+Lemma seg_inv st ks s o : seg ens st ks s o -> DbIn s -> oinv DbIn o.
+Proof.
+  intros H. induction H as [s|ks s e o Hp H IH|ks s x s1 o Hc H IH|ks s x o Hc Hn]; intros HD.
+  - exact HD.
+  - apply IH. apply DbIn_emit. exact HD.
+  - apply IH. pose proof (Hinv st s x HD) as H1. rewrite Hc in H1. exact H1.
+  - rewrite <- Hc. apply Hinv. exact HD.
+Qed.
+
+Lemma run_pre_DbIn k r s : DbIn s -> DbIn (run_pre rules k r s).
+Proof. intros H. unfold run_pre. destruct (_ && _); exact H. Qed.
+
+Lemma run_inv k stack r s : DbIn s -> ~ done s k -> res_computedAt r = cA (st_mem s) k ->
+  oinv DbIn (run rules env F order ens k stack r s).
+Proof.
+  intros HD Hnd Hc.
+  destruct (run_cases rules env F order ens k stack r s _ eq_refl) as [[s4 [sl1 [sl3 [G1 G2]]]]|[_ [ks G]]].
+  - pose proof (seg_inv _ _ _ _ G1 (run_pre_DbIn k r s HD)) as HD4. cbn [oinv] in HD4.
+    destruct (seg_frame ens Hfr _ _ _ _ G1) as [Fr _]. cbn [frame_o] in Fr.
+    pose proof (fr_stack _ _ _ _ _ Fr k (or_introl eq_refl)) as Fk. rewrite run_pre_mem in Fk.
+    pose proof (fr_epoch _ _ _ _ _ Fr) as Fe. rewrite run_pre_epoch in Fe.
+    eapply seg_inv; [exact G2|]. apply DbIn_complete.
+    + apply DbIn_emit. exact HD4.
+    + unfold done. cbn [emit st_mem st_epoch]. rewrite Fk, Fe. exact Hnd.
+    + cbn [emit st_mem]. unfold cA. rewrite Fk. exact Hc.
+  - eapply seg_inv; [exact G | apply run_pre_DbIn; exact HD].
+Qed.
+
+Lemma scan_inv ds : forall k stack r s pre,
+  DbIn s -> get (st_mem s) k = r -> ~ done s k -> res_builtAt r <> 0 ->
+  drop_single (res_deps r) = res_deps r -> res_deps r = pre ++ ds ->
+  (forall d, In d pre -> done s (d_key d) /\ (d_order d = false -> cA (st_mem s) (d_key d) <= res_builtAt r)) ->
+  oinv DbIn (scan rules env F order ens k stack r ds s).
+Proof.
+  induction ds as [|d ds IH]; intros k stack r s pre HD G Hnd Hb0 Hcl Hpre Hchk; cbn [scan].
+  - cbn [oinv]. rewrite app_nil_r in Hpre. pose proof HD as [Hf [[Hrel Hgap] [Hbd Hsc]]].
+    pose proof (Hrel k) as Hrk. rewrite G in Hrk. destruct Hrk as [Hv [Hs [Hc [Hdp [Hle H0]]]]].
+    pose proof (Hbd k) as Hbk. unfold bA in Hbk. rewrite G in Hbk.
+    apply DbIn_set_mem; try exact HD; cbn [res_builtAt res_computedAt res_deps].
+    + unfold rel. cbn. repeat split; try assumption; [lia | intros E; exfalso; apply Hb0, H0, E].
+    + lia.
+    + unfold cA. rewrite G. reflexivity.
+    + intros d Hin Hord [G1 G2]. rewrite Hcl, Hpre in Hin. destruct (Hchk d Hin) as [_ Hcd].
+      specialize (Hcd Hord). apply (Hgap k d); [rewrite G, Hcl, Hpre; exact Hin | exact Hord|].
+      unfold bA at 2. rewrite G. split; [exact G1 | exact Hcd].
+    + intros _ _ d Hin. rewrite Hcl, Hpre in Hin. destruct (Hchk d Hin) as [Hdd _].
+      destruct (N.eq_dec (d_key d) k) as [Ek|Ek]; [rewrite Ek; apply done_set_mem_same; reflexivity|].
+      apply done_set_mem_other; assumption.
+    + intros Hd. contradiction.
+  - pose proof (Hinv (k :: stack) s (d_key d) HD) as H1. destruct (Hfr (k :: stack) s (d_key d)) as [Fr Fd].
+    destruct (ens (k :: stack) s (d_key d)) as [s1|s1 p|] eqn:E; cbn [oinv] in H1; [|exact H1|exact I].
+    cbn [frame_o] in Fr. pose proof (fr_stack _ _ _ _ _ Fr k (or_introl eq_refl)) as Fk.
+    pose proof (fr_epoch _ _ _ _ _ Fr) as Fe. specialize (Fd s1 eq_refl).
+    assert (Hnd1 : ~ done s1 k) by (unfold done; rewrite Fk, Fe; exact Hnd).
+    assert (G1 : get (st_mem s1) k = r) by (rewrite Fk; exact G).
+    destruct (negb (d_order d) && (res_builtAt r <? res_computedAt (get (st_mem s1) (d_key d)))) eqn:Ec.
+    + apply run_inv; [apply DbIn_emit; exact H1 | exact Hnd1|].
+      cbn [emit st_mem]. unfold cA. rewrite G1. reflexivity.
+    + apply (IH k stack r s1 (pre ++ [d])); try assumption.
+      * rewrite <- app_assoc. exact Hpre.
+      * intros d' Hin. apply in_app_or in Hin. destruct Hin as [Hin|[<-|[]]].
+        -- destruct (Hchk d' Hin) as [Hdd Hcd]. split; [eapply frame_done_mono; eassumption|].
+           unfold cA. rewrite (fr_frozen _ _ _ _ _ Fr _ Hdd). exact Hcd.
+        -- split; [exact Fd|]. intros Ho. rewrite Ho in Ec. cbn [negb andb] in Ec.
+           apply N.ltb_ge in Ec. exact Ec.
+Qed.
+
+Lemma clean_DbIn s k : DbIn s -> ~ done s k -> DbIn (set_mem s k (clean (get (st_mem s) k))).
+Proof.
+  intros HD Hnd. pose proof HD as [Hf [[Hrel Hgap] [Hbd Hsc]]].
+  destruct (Hrel k) as [Hv [Hs [Hc [Hdp [Hle H0]]]]].
+  apply DbIn_set_mem; try exact HD; cbn [clean res_builtAt res_computedAt res_deps].
+  - unfold rel, clean. cbn. rewrite drop_single_idem. repeat split; assumption.
+  - apply Hbd.
+  - reflexivity.
+  - intros d Hin Hord. rewrite drop_single_idem in Hin. apply (Hgap k d Hin Hord).
+  - intros E. contradiction.
+  - intros Hd. contradiction.
+Qed.
+
+Lemma ensure_body_inv stack s k : DbIn s -> oinv DbIn (ensure_body rules env F order ens stack s k).
+Proof.
+  intros HD. unfold ensure_body.
+  destruct (existsb (N.eqb k) stack); [exact HD|].
+  destruct (N.eqb_spec (res_builtAt (get (st_mem s) k)) (st_epoch s)) as [Ed|Ed]; [exact HD|].
+  fold (clean (get (st_mem s) k)). pose proof (clean_DbIn s k HD Ed) as HD'.
+  set (r := clean (get (st_mem s) k)) in *. set (a := set_mem s k r) in *.
+  assert (Hnd : forall e, ~ done (emit a e) k).
+  { intros e Hd. apply done_emit in Hd. apply done_set_mem_same in Hd. apply Ed. exact Hd. }
+  assert (Hnd2 : forall e e', ~ done (emit (emit a e) e') k).
+  { intros e e' Hd. apply done_emit in Hd. exact (Hnd e Hd). }
+  assert (Hca : forall e, res_computedAt r = cA (st_mem (emit a e)) k).
+  { intros e. cbn [emit st_mem]. subst a. cbn [set_mem st_mem]. rewrite cA_update_same. reflexivity. }
+  destruct (N.eqb_spec (res_builtAt r) 0) as [E0|E0].
+  { apply run_inv; [apply DbIn_emit; exact HD' | apply Hnd | apply Hca]. }
+  destruct (flagged a k).
+  { apply run_inv; [apply DbIn_emit; exact HD' | apply Hnd | apply Hca]. }
+  destruct (negb (N.eqb (r_sig (rules k)) (res_sig r))).
+  { apply run_inv; [apply DbIn_emit; exact HD' | apply Hnd | apply Hca]. }
+  destruct (negb (valid rules env k r)).
+  { apply run_inv; [do 2 apply DbIn_emit; exact HD' | apply Hnd2 | apply (Hca (EValid k false))]. }
+  apply (scan_inv (res_deps r) k stack r (emit a (EValid k true)) []).
+  - apply DbIn_emit. exact HD'.
+  - cbn [emit st_mem]. subst a. cbn [set_mem st_mem]. apply get_update_same.
+  - apply Hnd.
+  - exact E0.
+  - subst r. cbn [clean res_deps]. apply drop_single_idem.
+  - reflexivity.
+  - intros d [].
+Qed.
+
+End Inv.
+
+Section LiftInv.
+Variable rules : key -> rule.
+Variable env : key -> N.
+Variable F : key -> N -> list value -> list N -> N -> N.
+Variable order : N -> key -> list dep -> list dep.
+
+Theorem ensure_inv fuel : forall stack s k, DbIn s -> oinv DbIn (ensure rules env F order fuel stack s k).
+Proof.
+  induction fuel as [|f IH]; intros stack s k HD; cbn [ensure]; [exact I|].
+  apply ensure_body_inv; [exact IH | apply ensure_frame | exact HD].
+Qed.
+
+Lemma DbOk_bump s : DbOk s -> DbIn (bump_epoch s).
+Proof.
+  intros [He [Hf [Hm Hbd]]]. unfold DbIn, scanned_deps_done. cbn [bump_epoch st_flag st_mem st_db st_epoch].
+  split; [exact Hf|]. split; [exact Hm|]. split; [intros k; specialize (Hbd k); lia|].
+  intros k d Hd. unfold done in Hd. cbn [bump_epoch st_mem st_epoch] in Hd. specialize (Hbd k). unfold bA in Hbd. lia.
+Qed.
+
+Lemma DbIn_commit s : DbIn s -> DbOk (commit_epoch s).
+Proof.
+  intros [Hf [Hm [Hbd _]]]. unfold DbOk. cbn [commit_epoch st_epoch st_db_epoch st_flag st_mem st_db].
+  split; [reflexivity|]. split; [exact Hf|]. split; [exact Hm | exact Hbd].
+Qed.
+
+(* DbOk is preserved by every build that returns *)
+Theorem build_DbOk fuel s k : DbOk s -> oinv DbOk (build rules env F order fuel s k).
+Proof.
+  intros HD. unfold build. pose proof (ensure_inv fuel [] _ k (DbOk_bump s HD)) as H.
+  destruct (ensure rules env F order fuel [] (bump_epoch s) k) as [a|a p|]; cbn [oinv] in *;
+    [apply DbIn_commit; exact H | apply DbIn_commit; exact H | exact I].
+Qed.
+
+End LiftInv.
+
+(* ---------- restarts ---------- *)
+
+Lemma mem_rel_refl m : mem_rel m m.
+Proof. split; [intros k; apply rel_refl|]. intros k d _ _ [G1 G2]. lia. Qed.
+
+Theorem DbOk_init : DbOk init_state.
+Proof.
+  unfold DbOk, init_state. cbn [st_epoch st_db_epoch st_flag st_mem st_db].
+  split; [reflexivity|]. split; [reflexivity|]. split; [apply mem_rel_refl|]. intros k. cbn. lia.
+Qed.
+
+Lemma DbOk_db_bound s k : DbOk s -> bA (st_db s) k <= st_db_epoch s.
+Proof.
+  intros [He [_ [[Hrel _] Hbd]]]. destruct (Hrel k) as [_ [_ [_ [_ [Hle _]]]]]. specialize (Hbd k).
+  unfold bA in *. lia.
+Qed.
+
+Theorem DbOk_restart s : DbOk s -> DbOk (restart s).
+Proof.
+  intros HD. unfold DbOk, restart. cbn [st_epoch st_db_epoch st_flag st_mem st_db].
+  split; [reflexivity|]. split; [reflexivity|]. split; [apply mem_rel_refl|].
+  intros k. apply DbOk_db_bound. exact HD.
+Qed.
+
+Lemma DbOk_restart_nodb s : DbOk (restart_nodb s).
+Proof. exact DbOk_init. Qed.
+
+(* the engine restarted from the database simulates the long-lived one *)
+Theorem restart_R s : DbOk s -> R s (restart s).
+Proof.
+  intros [He [Hf [Hm Hbd]]]. unfold R, restart. cbn [st_epoch st_db_epoch st_flag st_mem st_db].
+  repeat (split; [assumption || reflexivity|]). exact Hbd.
+Qed.
+
+Lemma R_restart_right s1 s2 : R s1 s2 -> DbOk s1 -> R s1 (restart s2).
+Proof.
+  intros [Hdb [Hde [He [Hf1 [Hf2 [Hm Hbd]]]]]] [He1 [_ [Hm1 _]]].
+  unfold R, restart. cbn [st_epoch st_db_epoch st_flag st_mem st_db]. rewrite <- Hdb, <- Hde.
+  repeat (split; [assumption || reflexivity|]). exact Hbd.
+Qed.
+
+Lemma R_restart_both s1 s2 : R s1 s2 -> DbOk s1 -> R (restart s1) (restart s2).
+Proof.
+  intros [Hdb [Hde _]] HD. unfold R, restart. cbn [st_epoch st_db_epoch st_flag st_mem st_db]. rewrite <- Hdb, <- Hde.
+  repeat (split; [reflexivity|]). split; [apply mem_rel_refl|]. intros k. apply DbOk_db_bound. exact HD.
+Qed.
+
+Lemma R_restart_nodb s1 s2 : R (restart_nodb s1) (restart_nodb s2).
+Proof.
+  unfold R, restart_nodb. cbn [st_epoch st_db_epoch st_flag st_mem st_db].
+  repeat (split; [reflexivity|]). split; [apply mem_rel_refl|]. intros k. cbn. lia.
+Qed.
+
+Lemma R_result_of s1 s2 k : R s1 s2 -> result_of s1 k = result_of s2 k.
+Proof. intros [_ [_ [_ [_ [_ [[H _] _]]]]]]. unfold result_of. apply H. Qed.
+
+(* ---------- histories ---------- *)
+
+Section Hist.
+Variable F : key -> N -> list value -> list N -> N -> N.
+Variable order : N -> key -> list dep -> list dep.
+Variable fuel : nat.
+
+Lemma filter_samelog s1 s2 a b : samelog s1 s2 a b ->
+  filter not_restart (st_log s1) = filter not_restart (st_log s2) ->
+  filter not_restart (st_log a) = filter not_restart (st_log b).
+Proof. intros [l [H1 H2]] H. rewrite H1, H2, !filter_app, H. reflexivity. Qed.
+
+Lemma step_build d a b k : Hrel d a b -> Hrel d (hstep F order fuel a (OBuild k)) (hstep F order fuel b (OBuild k)).
+Proof.
+  intros [HR [HD [Henv [Hrules [Hpend [Hdirty Hlog]]]]]]. cbn [hstep]. rewrite <- Henv, <- Hrules.
+  set (rl := rules_of (h_rules a)). set (ev := env_of (h_env a)).
+  set (a0 := emit (h_st a) (EBuildStart k)). set (b0 := emit (h_st b) (EBuildStart k)).
+  assert (HR0 : R a0 b0) by exact HR. assert (HD0 : DbOk a0) by exact HD.
+  assert (Hlog0 : filter not_restart (st_log a0) = filter not_restart (st_log b0)).
+  { subst a0 b0. cbn [emit st_log filter not_restart]. rewrite Hlog. reflexivity. }
+  pose proof (build_sim rl ev F order fuel a0 b0 k HR0) as HS.
+  pose proof (build_DbOk rl ev F order fuel a0 k HD0) as HK.
+  destruct (build rl ev F order fuel a0 k) as [a1|a1 p|]; destruct (build rl ev F order fuel b0 k) as [b1|b1 q|];
+    cbn [osimR] in HS; try contradiction; cbn [oinv] in HK; unfold Hrel; cbn [h_st h_env h_rules h_pending].
+  - destruct HS as [HR1 HL]. rewrite (R_result_of _ _ k HR1).
+    split; [exact HR1|]. split; [exact HK|]. repeat (split; [assumption || reflexivity|]).
+    cbn [emit st_log filter not_restart]. rewrite (filter_samelog _ _ _ _ HL Hlog0). reflexivity.
+  - destruct HS as [-> [HR1 HL]].
+    split; [exact HR1|]. split; [exact HK|]. repeat (split; [assumption || reflexivity|]).
+    cbn [emit st_log filter not_restart]. rewrite (filter_samelog _ _ _ _ HL Hlog0). reflexivity.
+  - split; [exact HR0|]. split; [exact HD0|]. repeat (split; [assumption || reflexivity|]).
+    cbn [emit st_log filter not_restart]. rewrite Hlog0. reflexivity.
+Qed.
+
+Lemma step_restart d a b db : Hrel d a b ->
+  Hrel false (hstep F order fuel a (ORestart db)) (hstep F order fuel b (ORestart db)).
+Proof.
+  intros [HR [HD [Henv [Hrules [Hpend [Hdirty Hlog]]]]]]. unfold Hrel. cbn [hstep h_st h_env h_rules h_pending].
+  destruct db.
+  - split; [exact (R_restart_both _ _ HR HD)|]. split; [exact (DbOk_restart _ HD)|].
+    repeat (split; [assumption || reflexivity|]). cbn [emit restart st_log filter not_restart]. exact Hlog.
+  - split; [exact (R_restart_nodb _ _)|]. split; [exact (DbOk_restart_nodb _)|].
+    repeat (split; [assumption || reflexivity|]). cbn [emit restart_nodb st_log filter not_restart]. exact Hlog.
+Qed.
+
+Lemma step_extra_restart a b : Hrel false a b -> Hrel false a (hstep F order fuel b (ORestart true)).
+Proof.
+  intros [HR [HD [Henv [Hrules [Hpend [Hdirty Hlog]]]]]]. unfold Hrel. cbn [hstep h_st h_env h_rules h_pending].
+  split; [exact (R_restart_right _ _ HR HD)|]. split; [exact HD|]. split; [exact Henv|].
+  split; [rewrite <- Hpend; symmetry; apply Hdirty; reflexivity|]. split; [exact Hpend|]. split; [exact Hdirty|].
+  cbn [emit restart st_log filter not_restart]. exact Hlog.
+Qed.
+
+Theorem ins_Hrel : forall d ops ops', ins d ops ops' -> forall a b, Hrel d a b ->
+  exists d', Hrel d' (fold_left (hstep F order fuel) ops a) (fold_left (hstep F order fuel) ops' b).
+Proof.
+  intros d ops ops' H. induction H as [d|l l' H IH|d k n l l' H IH|d k r l l' H IH|d db l l' H IH|d k l l' H IH];
+    intros a b HH; cbn [fold_left].
+  - exists d. exact HH.
+  - apply IH. apply step_extra_restart. exact HH.
+  - apply IH. destruct HH as [HR [HD [Henv [Hrules [Hpend [Hdirty Hlog]]]]]]. unfold Hrel. cbn [hstep h_st h_env h_rules h_pending].
+    rewrite Henv. repeat (split; [assumption || reflexivity|]). exact Hlog.
+  - apply IH. destruct HH as [HR [HD [Henv [Hrules [Hpend [Hdirty Hlog]]]]]]. unfold Hrel. cbn [hstep h_st h_env h_rules h_pending].
+    rewrite Hpend. repeat (split; [assumption || reflexivity|]). split; [discriminate | exact Hlog].
+  - apply IH. eapply step_restart. exact HH.
+  - apply IH. apply step_build. exact HH.
+Qed.
+
+Lemma Hrel_init : Hrel false init_h init_h.
+Proof.
+  unfold Hrel, init_h. cbn [h_st h_env h_rules h_pending].
+  split; [|split; [exact DbOk_init|repeat (split; try reflexivity)]].
+  unfold R, init_state. cbn [st_epoch st_db_epoch st_flag st_mem st_db].
+  repeat (split; [reflexivity|]). split; [apply mem_rel_refl|]. intros k. cbn. lia.
+Qed.
+
+(* C03: restarts inserted at any positions without a pending rule edit are unobservable *)
+Theorem restart_transparent ops ops' : ins false ops ops' ->
+  observed (run_history F order fuel ops') = observed (run_history F order fuel ops).
+Proof.
+  intros H. destruct (ins_Hrel _ _ _ H _ _ Hrel_init) as [d' [_ [_ [_ [_ [_ [_ Hlog]]]]]]].
+  unfold observed, run_history. rewrite Hlog. reflexivity.
+Qed.
+
+End Hist.
+
+Lemma ins_refl ops : forall d, ins d ops ops.
+Proof.
+  induction ops as [|o ops IH]; intros d; [constructor|].
+  destruct o; constructor; apply IH.
+Qed.
+
+(* every state a history reaches is database-consistent, hence simulated by its own restart *)
+Theorem history_DbOk F order fuel ops : DbOk (h_st (run_history F order fuel ops)).
+Proof.
+  destruct (ins_Hrel F order fuel _ _ _ (ins_refl ops false) _ _ Hrel_init) as [d' [_ [HD _]]]. exact HD.
+Qed.
+
+Theorem history_restart_R F order fuel ops :
+  R (h_st (run_history F order fuel ops)) (restart (h_st (run_history F order fuel ops))).
+Proof. apply restart_R. apply history_DbOk. Qed.
+
+(* ---------- non-vacuity ---------- *)
+
+(* 1 requests 2 and single-use 3; 2 and 3 observe external state.  Build 1; build 1 again (validated by the scan
+   without running: memory builtAt moves ahead of the database row, single-use entry dropped in memory only);
+   change 2; build 1 (reruns because its input was rebuilt).  With restarts before the 2nd and 3rd build the
+   observations are identical. *)
+Definition ex_setup : list op :=
+  [ORule 1 (mkRule 0 false [2] [3] [] None []); ORule 2 (mkRule 0 true [] [] [] None []);
+   ORule 3 (mkRule 0 true [] [] [] None []); ORestart true].
+Definition ex_ops : list op := ex_setup ++ [OBuild 1; OBuild 1; OSet 2 5; OBuild 1].
+Definition ex_ops' : list op :=
+  ex_setup ++ [OBuild 1; ORestart true; OBuild 1; OSet 2 5; ORestart true; OBuild 1; ORestart true].
+
+Example ex_ins : ins false ex_ops ex_ops'.
+Proof. unfold ex_ops, ex_ops', ex_setup. cbn [app]. repeat constructor. Qed.
+
+Example ex_transparent :
+  observed (run_history mixF ord_id 20 ex_ops') = observed (run_history mixF ord_id 20 ex_ops) /\
+  In (EValid 1 true) (observed (run_history mixF ord_id 20 ex_ops)) /\
+  In (ENeed 1 InputRebuilt (Some 2)) (observed (run_history mixF ord_id 20 ex_ops)) /\
+  length (filter (fun e => match e with ECreate 1 => true | _ => false end)
+                 (observed (run_history mixF ord_id 20 ex_ops))) = 2%nat.
+Proof.
+  split; [vm_compute; reflexivity|]. split; [vm_compute; tauto|]. split; [vm_compute; tauto|].
+  vm_compute. reflexivity.
+Qed.
+
+(* the related states of the example really differ: after the second build the memory builtAt of rule 1 is 2
+   while the database row still says 1, and memory has dropped the single-use dependency on 3 *)
+Example ex_states_differ :
+  let s := h_st (run_history mixF ord_id 20 (ex_setup ++ [OBuild 1; OBuild 1])) in
+  bA (st_mem s) 1 = 2 /\ bA (st_db s) 1 = 1 /\
+  length (res_deps (get (st_mem s) 1)) = 1%nat /\ length (res_deps (get (st_db s) 1)) = 2%nat /\
+  R s (restart s).
+Proof.
+  cbv zeta. split; [vm_compute; reflexivity|]. split; [vm_compute; reflexivity|].
+  split; [vm_compute; reflexivity|]. split; [vm_compute; reflexivity|]. apply history_restart_R.
+Qed.
